@@ -28,7 +28,7 @@ func run(r *vk.Run) {
 		"waste 100..160 and 999..1001 because its constructor seeds 100 records; thorough adds random sizes 61..998) x repetitions with different generated key sets "+
 		"(random valid UTF-8 keys from 7 alphabets, 40% extensions and 17% truncations of other keys, some keys invented by the model, 0-3 inserted-then-deleted keys). "+
 		"Per case: one walk (follow next_page_token until empty) per page size in {0,1,2,3,7,50,1000,5000,MaxInt32,N-1,N,N+1,random} with read mask none / key / key+tag, "+
-		"walks with a read mask that omits the key, a sample of the walks repeated through the generated wrapper, page sizes -5..-1 and random negatives (with and without a valid token), "+
+		"two walks whose page size changes from request to request, two walks with a read mask that omits the key (own key suffix /mask-without-key), a sixth of the clean walks repeated through the generated wrapper (guarded against process death), page sizes -5..-1 and random negatives (with and without a valid token), "+
 		"and ~14 hostile tokens (non-base64, truncated, bit-flipped, random bytes, invalid UTF-8 key, foreign key, offset arm, unknown field; waste: non-numeric, sign only, overflow, beyond count, negative, plus-prefixed). "+
 		"One evaluation = one walk or one hostile request judged. A case is distinct by (RPC, size, page size, mask class, hash of the key set) resp. (RPC, class, token/size, collection size) and non-trivial when the collection is non-empty.",
 		"the collection is not modified while a walk is in progress (the harness is the only user of the model)",
@@ -42,7 +42,7 @@ func run(r *vk.Run) {
 		sizes = append(sizes, n)
 	}
 	sizes = append(sizes, 999, 1000, 1001)
-	reps := r.Pick(2, 300)
+	reps := r.Pick(2, 120)
 	szRng := r.Rand("extra-sizes")
 	idx := 0
 	for rep := 0; rep < reps; rep++ {
@@ -64,25 +64,20 @@ func run(r *vk.Run) {
 		}
 	}
 
-	q := r.Quick()
-	pick := func(a, b int) int {
-		if q {
-			return a
-		}
-		return b
-	}
-	r.Require("walks", pick(6000, 80000))
-	r.Require("walks-multi-page", pick(3000, 40000))
-	r.Require("walks-exact-multiple", pick(400, 5000))
-	r.Require("walks-capped-at-1000", pick(20, 300))
-	r.Require("walks-default-size-multi-page", pick(40, 600))
-	r.Require("walks-mixed-page-sizes", pick(1000, 15000))
-	r.Require("walks-wrapped", pick(300, 4000))
-	r.Require("neg-probes", pick(3000, 40000))
-	r.Require("tok-probes/malformed", pick(2000, 30000))
-	r.Require("tok-probes/decodable-honoured", pick(1000, 15000))
+	// minimums per repetition, about half of what a repetition yields on the unchanged tree
+	need := func(counter string, perRep int) { r.Require(counter, perRep*reps) }
+	need("walks", 4500)
+	need("walks-multi-page", 2500)
+	need("walks-exact-multiple", 900)
+	need("walks-capped-at-1000", 15)
+	need("walks-default-size-multi-page", 150)
+	need("walks-mixed-page-sizes", 600)
+	need("walks-wrapped", 450)
+	need("neg-probes", 2000)
+	need("tok-probes/malformed", 1900)
+	need("tok-probes/decodable-honoured", 1300)
 	for _, t := range targets {
-		r.Require("walks/"+t.rpc, pick(800, 11000))
+		need("walks/"+t.rpc, 600)
 	}
 }
 
@@ -205,7 +200,10 @@ func pageSizes(r *vk.Run, rng *vk.Rand, n int) []int32 {
 				out = append(out, 7)
 			}
 		} else {
-			out = append(out, 7, int32(rng.Range(1, 3)))
+			out = append(out, 7)
+			if rng.Chance(1, 4) {
+				out = append(out, int32(rng.Range(1, 3))) // ~n*n/size item copies: kept to a quarter of the big cases
+			}
 		}
 	}
 	for _, d := range []int{-1, 0, 1} {
